@@ -38,6 +38,7 @@ type Clause struct {
 	Src   string
 	File  string
 	Line  int
+	Cut   []string // locals whose defining equations are left out of this obligation (they are arbitrary values)
 }
 
 type LoopSpec struct {
@@ -155,7 +156,17 @@ func (db *ContractDB) loadFile(fn string) error {
 		}
 		mkClause := func(s string) Clause {
 			l, e := splitLabel(s)
-			return Clause{Label: l, Src: e, File: filepath.Base(fn), Line: ln}
+			cl := Clause{Label: l, Src: e, File: filepath.Base(fn), Line: ln}
+			// optional prefix "cut(a, b, c) :" on white-box postconditions
+			if t := strings.TrimSpace(e); strings.HasPrefix(t, "cut(") {
+				if i := strings.Index(t, ") :"); i > 0 {
+					for _, n := range strings.Split(t[4:i], ",") {
+						cl.Cut = append(cl.Cut, strings.TrimSpace(n))
+					}
+					cl.Src = strings.TrimSpace(t[i+3:])
+				}
+			}
+			return cl
 		}
 		switch word {
 		case "package":
